@@ -938,6 +938,7 @@ func run(c *core.Ctx) {
 			}
 		}
 		cs := Case{Prefix: layout(c, c.Rng.Intn(7)), Progs: progs, Kind: "random"}
+		c.Pending(cs)
 		r, info := execute(cs, sched.Random(c.Rng.Intn, 50))
 		report(c, cs, r, info)
 	}
@@ -983,6 +984,9 @@ func exploreCase(c *core.Ctx, cs Case, maxPre, limit int) int {
 		var r sched.Result
 		var info *runInfo
 		for try := 1; ; try++ {
+			pc := cs
+			pc.Choices = prefix
+			c.Pending(pc) // if the run kills the process, this is the failing input
 			r, info = execute(cs, sched.Prefix(prefix))
 			if !have {
 				break
